@@ -259,6 +259,53 @@ def check(run):
                 run.check(nacc >= 1, 'D2', 'check_block_header_proof[completeness]' if nacc < 1 else f'{tag}|consistent proof accepted', f'{tag}: {nacc} accepting path(s)', w2)
 
     # ------------------------------------------------------------------ D3 account proof
+    from ..dictspec import encode_label
+    K1 = bytes(range(32))
+    K2 = K1[:-1] + bytes([K1[-1] ^ 1])
+    K3 = bytes([0x80]) + K1[1:]
+    K4 = K1[:16] + bytes([K1[16] ^ 0x10]) + K1[17:]            # leaves the path of K1 inside the long edge label
+    K5 = bytes([0x80]) + K1[1:-1] + bytes([K1[-1] ^ 4])          # leaves the path of K3 inside its leaf label
+    EXTRA = '00000' + '0000' + '0'                               # depth_balance$_ split_depth:(#<= 30) balance:(grams 0, no extra currencies)
+
+    def kbits(b):
+        return ''.join(format(x, '08b') for x in b)
+
+    def const_cell(it, bits, refs=()):
+        return cm.new_cell(it, cm.tvm_bits(it, BA([Seg(len(bits), 'k', bits)])), list(refs))
+
+    def real_state(it, A, proved_kind='pruned', prune=None):
+        if proved_kind == 'pruned':
+            acc1 = pruned(it, 'account-K1', A)
+        else:
+            # the account's state cell itself is part of the proof: account_none$0 as content, A as its (opaque) hash
+            acc1 = const_cell(it, '0')
+            acc1.attrs['_hashes'] = ListV([A])
+            acc1.attrs['_hash'] = A
+        acc2 = const_cell(it, '0')                               # account_none$0
+        acc3 = const_cell(it, '0')
+        lth = {1: format(0x11, '08b') * 32, 2: format(0x22, '08b') * 32, 3: format(0x33, '08b') * 32}
+
+        def leaf(label, m, n_, acc):
+            return const_cell(it, encode_label(label, m) + EXTRA + lth[n_] + format(100 + n_, '064b'), [acc])
+        k1, k2, k3 = kbits(K1), kbits(K2), kbits(K3)
+        l1, l2 = leaf('', 0, 1, acc1), leaf('', 0, 2, acc2)
+        if prune == 'leaf of K1':
+            l1 = pruned(it, 'pruned-leaf-K1', sym32('PRUNED_LEAF'))
+        left = const_cell(it, encode_label(k1[1:255], 255) + EXTRA, [l1, l2] if k1[255] == '0' else [l2, l1])
+        if prune == 'edge above K1':
+            left = pruned(it, 'pruned-edge', sym32('PRUNED_EDGE'))
+        right = leaf(k3[1:], 255, 3, acc3)
+        root = const_cell(it, encode_label('', 256) + EXTRA, [left, right])
+        if prune == 'dictionary root':
+            root = pruned(it, 'pruned-dict-root', sym32('PRUNED_ROOT'))
+        accounts = const_cell(it, '1' + EXTRA, [root])           # ahme_root$1 root:^(HashmapAug 256 ...) extra
+        if prune == 'accounts cell':
+            accounts = pruned(it, 'pruned-accounts', sym32('PRUNED_ACCOUNTS'))
+        head = format(0x9023afe2, '032b') + format(-239 & 0xffffffff, '032b') + '00' + format(0, '06b') + format(0, '032b') + format(1 << 63, '064b') + \
+            format(77, '032b') + format(0, '032b') + format(1700000000, '032b') + format(5000, '064b') + format(70, '032b') + '0' + '0'
+        state = const_cell(it, head, [pruned(it, 'out-msg-queue', sym32('OMQ')), accounts, pruned(it, 'state-tail', sym32('TAIL'))])
+        return state, dict(acc1=acc1, acc2=acc2, acc3=acc3, leaf1=l1, leaf2=l2, leaf3=right)
+
     for claim_kind in ('ordinary', 'pruned-carrying-the-hash'):
         for proved_kind in ('ordinary', 'pruned'):
             for nroots in (2, 1, 3):
@@ -274,9 +321,8 @@ def check(run):
                     blk_root = ordinary(it, 'blkroot', [ordinary(it, 'info'), ordinary(it, 'vflow'), upd, ordinary(it, 'extra')])
                     p0 = merkle_proof(it, 'p0', sym32('D0'), blk_root)
                     A = sym32('ACCOUNT_L0')
-                    acc_cell = ordinary(it, 'acc', h=A) if proved_kind == 'ordinary' else pruned(it, 'acc', A)
-                    sh_acc_cell = ordinary(it, 'shardaccount', [acc_cell])
-                    state_root = ordinary(it, 'stateroot', [sh_acc_cell])
+                    state_root, parts = real_state(it, A, proved_kind)
+                    state_root.l0 = cm.call_method(it, state_root, 'get_hash', K(0))
                     p1 = merkle_proof(it, 'p1', sym32('D1'), state_root)
                     roots = [p0, p1, ordinary(it, 'x')][:nroots]
                     # CLAIM side
@@ -288,28 +334,18 @@ def check(run):
                         claim_l0 = sym32('CARRIED')
                         claim = pruned(it, 'claim', claim_l0)
                     claim_repr = claim.attrs['_hash']
-                    SA = Inst(prog.cls('ShardAccount'))
-                    SA.attrs.update(cell=sh_acc_cell, account=K(None), last_trans_hash=sym32('LTH'), last_trans_lt=K(5))
                     addr = Inst(prog.cls('Address'))
-                    addr.attrs.update(wc=K(0), hash_part=K(bytes(range(32))))
-                    accounts = DictV({int.from_bytes(bytes(range(32)), 'big'): SA})
-                    accounts.keyobj = {k: K(k) for k in accounts.d}
-                    shard = Inst(prog.cls('ShardStateUnsplit'))
-                    shard.attrs['accounts'] = ListV([accounts, ListV([])], tup=True)
-                    seen = dict(deser_arg=None)
+                    addr.attrs.update(wc=K(0), hash_part=K(K1))
 
                     def summary(f, args, kw):
                         if f.name == 'from_boc' and f.cls is not None and f.cls.name == 'Cell':
                             return ListV(list(roots))
-                        if f.name == 'deserialize' and f.cls is not None and f.cls.name == 'ShardStateUnsplit':
-                            seen['deser_arg'] = args[-1] if args else None
-                            return shard
                         return None
                     it.summary_hook = summary
                     blk = Inst(prog.cls('BlockIdExt'))
                     blk.attrs.update(root_hash=sym32('BLOCKHASH'), file_hash=sym32('FH'), workchain=K(0), shard=K(1 << 63), seqno=K(9))
                     info = dict(it=it, blk_l0=blk_root.l0, BH=sym32('BLOCKHASH'), state_l0=state_root.l0, ST=ST, A=A,
-                                claim_repr=claim_repr, claim_l0=claim_l0, SA=SA)
+                                claim_repr=claim_repr, claim_l0=claim_l0, acc1=parts['acc1'])
                     try:
                         r = it.invoke(f_acc, [K(b'proof-bytes'), blk, addr, claim, K(True)], {})
                         return ('accept', r, info)
@@ -323,7 +359,13 @@ def check(run):
                         c1 = eq_decided(it, info['blk_l0'], info['BH'])
                         c2 = eq_decided(it, info['state_l0'], info['ST'])
                         c3 = eq_decided(it, info['A'], info['claim_repr'])
-                        ok = nroots == 2 and c1 is True and c2 is True and c3 is True and res is info['SA']
+                        cell0 = None
+                        if isinstance(res, Inst) and isinstance(res.attrs.get('cell'), Inst):
+                            try:
+                                cell0 = it.getitem(res.attrs['cell'], K(0), None)
+                            except RaiseEx:
+                                cell0 = None
+                        ok = nroots == 2 and c1 is True and c2 is True and c3 is True and cell0 is info['acc1']
                         if ok:
                             run.ok('D3', f'{tag}|accept', 'block hash, state hash and account hash (claimed side by its representation hash) all decided equal')
                         else:
@@ -345,26 +387,16 @@ def check(run):
         blk_root = ordinary(it, 'blkroot', [ordinary(it, 'info'), ordinary(it, 'vflow'), upd, ordinary(it, 'extra')])
         p0 = merkle_proof(it, 'p0', sym32('D0'), blk_root)
         A = sym32('ACCOUNT_L0')
-        acc_cell = ordinary(it, 'acc', h=A)
-        sh_acc_cell = ordinary(it, 'shardaccount', [acc_cell])
-        state_root = ordinary(it, 'stateroot', [sh_acc_cell])
+        state_root, parts = real_state(it, A)
         p1 = merkle_proof(it, 'p1', sym32('D1'), state_root)
         roots = [p0, p1]
         claim = cm.new_cell(it, cm.tvm_bits(it, BA([Seg(24, 'k', format(0xC1A133, '024b'))])), [])
-        SA = Inst(prog.cls('ShardAccount'))
-        SA.attrs.update(cell=sh_acc_cell, account=K(None), last_trans_hash=sym32('LTH'), last_trans_lt=K(5))
         addr = Inst(prog.cls('Address'))
-        addr.attrs.update(wc=K(0), hash_part=K(bytes(range(32))))
-        accounts = DictV({int.from_bytes(bytes(range(32)), 'big'): SA})
-        accounts.keyobj = {k: K(k) for k in accounts.d}
-        shard = Inst(prog.cls('ShardStateUnsplit'))
-        shard.attrs['accounts'] = ListV([accounts, ListV([])], tup=True)
+        addr.attrs.update(wc=K(0), hash_part=K(K1))
 
         def summary(f, args, kw):
             if f.name == 'from_boc' and f.cls is not None and f.cls.name == 'Cell':
                 return ListV(list(roots))
-            if f.name == 'deserialize' and f.cls is not None and f.cls.name == 'ShardStateUnsplit':
-                return shard
             return None
         it.summary_hook = summary
         outs = []
@@ -394,32 +426,25 @@ def check(run):
         raise AnalysisError('C11 history scenario: no path accepts the first call')
     # the queried account is not among the leaves the proof shows (e.g. its dictionary branch was pruned): nothing may be accepted,
     # whatever is claimed - an accepting path there has compared the claim with no committed hash at all
-    for claim_kind in ('empty cell', 'None', 'ordinary'):
-        def one(orc, claim_kind=claim_kind):
+    for claim_kind, prune_at in [(c_, p_) for c_ in ('empty cell', 'None', 'ordinary') for p_ in ('accounts cell', 'dictionary root', 'edge above K1', 'leaf of K1')]:
+        def one(orc, claim_kind=claim_kind, prune_at=prune_at):
             it = mk(prog)
             it.oracle = orc
+            it.MAX_STEPS = 4_000_000
             ST = sym32('STATE_FROM_HEADER')
             upd = merkle_update(it, 'upd', ordinary(it, 'old'), pruned(it, 'new', ST), ST)
             blk_root = ordinary(it, 'blkroot', [ordinary(it, 'info'), ordinary(it, 'vflow'), upd, ordinary(it, 'extra')])
             p0 = merkle_proof(it, 'p0', sym32('D0'), blk_root)
-            state_root = ordinary(it, 'stateroot', [pruned(it, 'accounts-branch', sym32('PRUNED_DICT'))])
+            state_root, _parts = real_state(it, sym32('ACCOUNT_L0'), 'pruned', prune_at)
             p1 = merkle_proof(it, 'p1', sym32('D1'), state_root)
-            other = Inst(prog.cls('ShardAccount'))
-            other.attrs.update(cell=ordinary(it, 'othersa', [ordinary(it, 'otheracc')]), account=K(None), last_trans_hash=sym32('LTH'), last_trans_lt=K(5))
-            accounts = DictV({12345: other})
-            accounts.keyobj = {12345: K(12345)}
-            shard = Inst(prog.cls('ShardStateUnsplit'))
-            shard.attrs['accounts'] = ListV([accounts, ListV([])], tup=True)
 
             def summary(f, args, kw):
                 if f.name == 'from_boc' and f.cls is not None and f.cls.name == 'Cell':
                     return ListV([p0, p1])
-                if f.name == 'deserialize' and f.cls is not None and f.cls.name == 'ShardStateUnsplit':
-                    return shard
                 return None
             it.summary_hook = summary
             addr = Inst(prog.cls('Address'))
-            addr.attrs.update(wc=K(0), hash_part=K(bytes(range(32))))
+            addr.attrs.update(wc=K(0), hash_part=K(K1))
             blk = Inst(prog.cls('BlockIdExt'))
             blk.attrs.update(root_hash=sym32('BLOCKHASH'), file_hash=sym32('FH'), workchain=K(0), shard=K(1 << 63), seqno=K(9))
             claim = {'empty cell': lambda: it.call(it.getattr(prog.cls('Cell'), 'empty'), [], {}), 'None': lambda: K(None),
@@ -432,8 +457,74 @@ def check(run):
         outs = [o for o, _ in run_paths(one, 256)]
         run.evaluations += len(outs)
         ok = 'accept' not in outs
-        run.check(ok, 'D3', 'check_account_proof[account not shown by the proof]' if not ok else f'absent account, claim={claim_kind}',
-                  f'account absent from the parsed dictionary, claimed state {claim_kind}: outcomes {sorted(set(outs))} (no path may accept)', w3)
+        run.check(ok, 'D3', 'check_account_proof[account not shown by the proof]' if not ok else f'account behind a pruned {prune_at}, claim={claim_kind}',
+                  f'the proof prunes the {prune_at} on the way to the account, claimed state {claim_kind}: outcomes {sorted(set(outs))} (no path may accept)', w3)
+    # ---- the same questions on a REAL state tree: a ShardStateUnsplit cell per block.tlb whose ShardAccounts dictionary (HashmapAugE 256) holds three
+    # accounts - K1 (the account of interest, its state pruned to the hash A), K2 = K1 with the last key bit flipped (a sibling leaf under a 254-bit
+    # edge label) and K3 on the other side of the root fork.  Nothing of the state parser is stubbed here, so however the account is looked up
+    # (whole-dictionary parse, walk along the key path, ...) the questions stay the same: an accepting path has compared the right hashes, and an
+    # address that is not a key of the dictionary is never accepted - in particular one that merely shares the path of K1 up to a label bit.
+    def real_case(addr_bytes, claim_of):
+        def one(orc):
+            it = mk(prog)
+            it.oracle = orc
+            it.MAX_STEPS = 4_000_000
+            ST = sym32('STATE_FROM_HEADER')
+            upd = merkle_update(it, 'upd', ordinary(it, 'old'), pruned(it, 'new', ST), ST)
+            blk_root = ordinary(it, 'blkroot', [ordinary(it, 'info'), ordinary(it, 'vflow'), upd, ordinary(it, 'extra')])
+            p0 = merkle_proof(it, 'p0', sym32('D0'), blk_root)
+            A = sym32('ACCOUNT_L0')
+            state, parts = real_state(it, A)
+            p1 = merkle_proof(it, 'p1', sym32('D1'), state)
+
+            def summary(f, args, kw):
+                if f.name == 'from_boc' and f.cls is not None and f.cls.name == 'Cell':
+                    return ListV([p0, p1])
+                return None
+            it.summary_hook = summary
+            claim = cm.new_cell(it, cm.tvm_bits(it, BA([Seg(24, 'k', format(0xC1A133, '024b'))])), []) if claim_of != 'acc2' else parts['acc2']
+            addr = Inst(prog.cls('Address'))
+            addr.attrs.update(wc=K(0), hash_part=K(addr_bytes))
+            blk = Inst(prog.cls('BlockIdExt'))
+            blk.attrs.update(root_hash=sym32('BLOCKHASH'), file_hash=sym32('FH'), workchain=K(0), shard=K(1 << 63), seqno=K(9))
+            info = dict(it=it, blk_l0=blk_root.l0, BH=sym32('BLOCKHASH'), state_l0=cm.call_method(it, state, 'get_hash', K(0)), ST=ST, A=A, claim_repr=claim.attrs['_hash'], parts=parts)
+            try:
+                r = it.invoke(f_acc, [K(b'proof-bytes'), blk, addr, claim, K(True)], {})
+                return ('accept', r, info)
+            except RaiseEx as e:
+                return ('raise', e, info)
+        return list(run_paths(one, 512))
+    for name, addr_b, claim_of, who in (('K1 (in the dictionary, state pruned to A)', K1, 'fresh', 'leaf1'), ('K2 (sibling leaf of K1)', K2, 'acc2', 'leaf2')):
+        naccept = 0
+        for (kind, res, info), desc in real_case(addr_b, claim_of):
+            run.evaluations += 1
+            it = info['it']
+            if kind != 'accept':
+                continue
+            naccept += 1
+            c1, c2 = eq_decided(it, info['blk_l0'], info['BH']), eq_decided(it, info['state_l0'], info['ST'])
+            own = info['A'] if who == 'leaf1' else info['parts']['acc2'].attrs['_hash']
+            c3 = eq_decided(it, own, info['claim_repr'])
+            cell0 = None
+            if isinstance(res, Inst) and isinstance(res.attrs.get('cell'), Inst):
+                try:
+                    cell0 = it.getitem(res.attrs['cell'], K(0), None)
+                except RaiseEx:
+                    cell0 = None
+            right_leaf = cell0 is info['parts']['acc1' if who == 'leaf1' else 'acc2']
+            ok = c1 is True and c2 is True and c3 is True and right_leaf
+            run.check(ok, 'D3', 'check_account_proof[real state tree, accepting path]' if not ok else f'real tree|{name}|accept[{desc[-30:]}]',
+                      f'address {name}: accepted with header-hash==block-hash {c1}, state-root-hash==header-state-hash {c2}, hash of THIS account\'s state in the proof == representation hash of the claim {c3}, '
+                      f'returned descriptor is this account\'s leaf: {right_leaf} [path {desc[-80:]}]', w3)
+        if not naccept:
+            run.fail('D3', 'check_account_proof[real state tree, completeness]', f'address {name}: no path accepts a genuine proof of this account over a real ShardStateUnsplit tree', w3)
+    for name, addr_b in (('K4 = K1 with one bit of the long edge label flipped (not a key)', K4), ('K5 = K3 with one bit of its leaf label flipped (not a key)', K5),
+                         ('an address on no edge at all', bytes([0x40]) + K1[1:])):
+        outs = real_case(addr_b, 'fresh')
+        run.evaluations += len(outs)
+        acc = [desc for (kind, res, info), desc in outs if kind == 'accept']
+        run.check(not acc, 'D3', 'check_account_proof[real state tree, address that is not a key]' if acc else f'real tree|{name[:20]}|never accepted',
+                  f'address {name}: ' + (f'ACCEPTED on path {acc[0][-80:]} - the proof shows a different account' if acc else f'{len(outs)} path(s), none accepts'), w3)
     # the cell that stands for the account's state in the proof: ShardAccount.cell[0] must be the account:^Account reference of the leaf even when the
     # leaf's augmentation (DepthBalanceInfo with extra currencies) has already consumed a reference of the same cell
     for consumed in (0, 1):
